@@ -121,12 +121,10 @@ Section Obs.
       if negb (c + n <=? len) then None
       else if negb (list_eqb Result_eqb (st_results s) (expected_results h c (N.to_nat n))) then None
       else if negb failing then
-        (* nothing is saved while the revision is 0: the store keeps what it held *)
-        let hs' := if o_rev T =? 0 then hs else h' in
         if negb (st_err s) && negb (st_degraded s) && o_eq (st_pub s) T && oo_eq (st_final s) T
            && (if o_rev T =? 0 then oo_none (st_saved s) else oo_eq (st_saved s) T)
-           && expected_store hs' (st_store s)
-        then Some (TRK (c + n) h' hs') else None
+           && expected_store h' (st_store s)
+        then Some (TRK (c + n) h' h') else None
       else
         let hs' := if st_mode s =? 1 then hs else h' in
         if st_err s && st_degraded s && o_eq (st_pub s) (Sk h) && oo_none (st_final s)
